@@ -160,3 +160,54 @@ def c04_scan(ctx):
                 _compare(acc, "after_set_params", cl["after_set_params"], d2, ref2, IA.C04_RTOL, wit2)
         history.append(spins)
     acc.flush()
+
+
+SAME_SUB = [((1, 0, 0), {"bc": 1}), ((0, 2, 1), {"bc": 2, "cd": 3}), ((3, 1, 2), {"bd": 1}), ((2, 2, 2), {"bc": 0, "bd": 4, "cd": 2})]
+
+
+@group(["C04"], "iface.C04/closed_form_same_subsystem", _FUNCS + ["amp.core:DecayGroup.get_amp", "amp.core:rename_data_dict", "amp.core:DecayChain.get_amp_particle"],
+       env="tf", kind="B", assumes=_ASSUME,
+       bound="structures with a SECOND resonance (own spin, mass, width, couplings) in one, two or all three sub-systems: %s; all chains, and every subset that "
+             "contains both resonances of some sub-system; 48 (quick) / 1024 (thorough) phase-space events + 75 boundary-grid events; rtol 1e-8" % (SAME_SUB,))
+def c04_same_subsystem(ctx):
+    """end-to-end companion of the proved groups amp.stage/same_subsystem/* (added after seeded change C04-rename_data_dict_shared_q0)"""
+    from vt.contracts import amp_sym
+
+    n_ev = 48 if ctx.tier == "quick" else 1024
+    acc = IA.Acc(ctx)
+    cl = {"density": "several resonances in one two-body sub-system: density == |sum over ALL resonances of the closed-form term, each with its own m0, Gamma0, q0, p0, J|^2, rtol 1e-8",
+          "after_set_params": "the same model object after set_params changed every mass, width and coupling: density == closed form at the new values, rtol 1e-8"}
+    for k, c in cl.items():
+        acc.declare(k, c)
+    msets = list(M.MASS_SETS)
+    for di, (spins, second) in enumerate(SAME_SUB if ctx.tier != "quick" else SAME_SUB[:3]):
+        mset = msets[di % len(msets)]
+        sname = amp_sym._with_second(M.spinless_struct(mset, spins), second)
+        st = M.STRUCTS[sname]
+        rs = np.random.RandomState(ctx.seed * 983 + di)
+        ps = M.phsp(ctx, sname, n_ev, ctx.seed + 90 + di)
+        bd = M.boundary_events(mset, ctx.seed + di)
+        ps = [np.concatenate([p, b]) for p, b in zip(ps, bd)]
+        keys = list(st["chains"])
+        subs = [keys] + [list(S) for S in M.subsets(keys) if len(S) < len(keys) and any(k + "2" in S and k in S for k in ("bc", "bd", "cd"))]
+        if ctx.tier == "quick":
+            subs = subs[:4]
+        for S in subs:
+            cfg = M.build_config(sname, chains=S)
+            config, amp = IA._load(ctx, cfg)
+            for step, name in ((0, "density"), (1, "after_set_params")):
+                rs2 = np.random.RandomState(ctx.seed * 983 + di + 7000 * step)
+                sub = {k: v for k, v in IA._c04_params(amp, sname, rs2).items() if k in amp.get_params()}
+                M.set_params(amp, sub)
+                d = M.density(config, amp, sname, ps)
+                ref = IA.c04_reference(sname, S, sub, ps)
+                cname = "%s chains=%s" % (sname, ",".join(S))
+                ctx.count(key=cname + "|" + name, sample={"config": cname, "spins": list(spins), "second": second, "events": len(d)})
+
+                def wit(i, ratio, d=d, ref=ref, cname=cname, sub=sub, cfg=cfg, ps=ps):
+                    return {"config": cname, "spins(R_BC,R_BD,R_CD)": list(spins), "second_resonances": second, "event": i, "density": float(d[i]),
+                            "closed_form": float(ref[i]), "ratio": float(d[i] / ref[i]) if ref[i] else None, "n_events_failing": int(np.sum(ratio > 1)),
+                            "n_events": len(d), "p4": IA._event(sname, ps, i), "params": {k: float(v) for k, v in sub.items()}, "config_dict": cfg}
+
+                _compare(acc, name, cl[name], d, ref, IA.C04_RTOL, wit)
+    acc.flush()
